@@ -19,6 +19,9 @@ def dispatch(prop, tier):
     if prop in ROBOT:
         from . import robot_check
         return robot_check.check(prop, tier)
+    if prop == "C15":
+        from . import sa_check
+        return sa_check.check(prop, tier)
     raise MachineryError("no check for %s" % prop)
 
 
@@ -33,6 +36,9 @@ def main(argv):
             if mod == "MagicRobot":
                 from . import robot_check
                 return robot_check.replay(argv[1])
+            if mod == "StatefulAuto":
+                from . import sa_check
+                return sa_check.replay(argv[1])
             raise MachineryError("cannot replay module %s" % mod)
         prop = argv[0]
         tier = argv[1] if len(argv) > 1 else os.environ.get("VERIF_TIER", "quick")
